@@ -19,12 +19,19 @@ AngGrad(r) == Vec([i \in 1..K |-> QSub(QMul(r[1].v, r[2].g[i]), QMul(r[2].v, r[1
 
 \* Error components as records: [v |-> rational, g |-> gradient] for rational components,
 \* [ang |-> <<c,s>>, g |-> gradient] for the SE(2) angular component.
-OdoErr(p1, p2, z) ==
-  LET d == OdoDelta(p1, p2, z) IN
+\* conv = "raw":   the SE(3) rotational error is the vector part of the error quaternion as computed;
+\* conv = "canon": of its representative with non-negative scalar part (q and -q are the same rotation), which is the
+\*                 convention under which chi^2 does not depend on the sign of any quaternion.
+NegRow(c) == [v |-> QNeg(c.v), g |-> Vec([i \in 1..K |-> QNeg(c.g[i])])]
+CompactRowsC(d, conv) ==
   CASE d.k = "SE2" -> << [v |-> d.t[1].v, g |-> d.t[1].g], [v |-> d.t[2].v, g |-> d.t[2].g],
                          [ang |-> <<QCanon(d.r[1].v), QCanon(d.r[2].v)>>, g |-> AngGrad(d.r)] >>
-    [] d.k = "SE3" -> << d.t[1], d.t[2], d.t[3], d.r[1], d.r[2], d.r[3] >>
+    [] d.k = "SE3" -> IF conv = "canon" /\ d.r[4].v[1] < 0
+                      THEN << d.t[1], d.t[2], d.t[3], NegRow(d.r[1]), NegRow(d.r[2]), NegRow(d.r[3]) >>
+                      ELSE << d.t[1], d.t[2], d.t[3], d.r[1], d.r[2], d.r[3] >>
     [] OTHER -> d.t
+OdoErrC(p1, p2, z, conv) == CompactRowsC(OdoDelta(p1, p2, z), conv)
+OdoErr(p1, p2, z) == OdoErrC(p1, p2, z, "raw")
 \* scalar part of the SE(3) error quaternion (its sign decides the representative)
 OdoErrW(p1, p2, z) == LET d == OdoDelta(p1, p2, z) IN IF d.k = "SE3" THEN QCanon(d.r[4].v) ELSE QI(1)
 
